@@ -23,6 +23,8 @@ RULE = (
     "max-rank of the findings == s_i and s_i is LIKELY_SAFE iff there are no findings; "
     "is_likely_safe(file) == (rank s_0 == 0); fickling.load(file) raises iff rank s_0 > 0 with "
     "info['severity'] == s_0; CLI exit status (what a real process ends with: low eight bits of main()'s value) == 0 iff all ranks are 0, "
+    "also when the pickle arrives in a carrier positioned on it (BytesIO / file / mmap behind other bytes, memoryview "
+    "window, descriptor-named or text-mode handle: refused iff the pickle pointed at is flagged, and a returned value is that pickle's), "
     "also for long stacks (255, 256, 257, 512 flagged pickles) run as `python -m fickling` in a real process; the report file parsed as "
     "concatenated JSON documents has k documents whose 'severity' are the s_i in order. Plus, "
     "exhaustively, all 36 ordered severity pairs under <, <=, >, >=, ==, != against integer "
@@ -139,6 +141,55 @@ def check_long_stack(n_flagged, tail_benign, scratch):
     if (pr.returncode == 0) != all(r == 0 for r in ranks):
         return Failure(case, f"`python -m fickling --check-safety` on a stack of {n_flagged} flagged + {tail_benign} "
                              f"harmless pickles exits {pr.returncode}; {sum(r > 0 for r in ranks)} verdicts are not LIKELY_SAFE")
+    return None
+
+
+def check_loader_carriers(first, other, scratch):
+    """the loader face when the pickle arrives inside a larger buffer / file / mapping positioned on
+    it (the bytes in front of it are `other`, of the opposite kind), as a memoryview window, through
+    a descriptor-named or text-mode handle: refused iff the pickle the stream points at is flagged"""
+    import pickle as _pk
+
+    import fickling
+    from fickling.analysis import check_safety
+    from fickling.exception import UnsafeFileError
+    from fickling.fickle import Pickled
+
+    from vlib import carriers
+
+    case = {"loader_carriers": [first.hex(), other.hex()]}
+    rank = RANK[check_safety(Pickled.load(first)).severity.name]
+    try:
+        for label, make in carriers.carriers(first, scratch.path, head=other):
+            for face in ("fickling.load", "hooked pickle.load"):
+                reset_pickle_bindings()
+                obj, closer = make()
+                try:
+                    if face == "fickling.load":
+                        value = fickling.load(obj)
+                    else:
+                        fickling.always_check_safety()
+                        value = _pk.load(obj)
+                    outcome = "returned"
+                except UnsafeFileError:
+                    outcome = "refused"
+                except Exception:  # noqa: BLE001 - the carrier itself is not accepted
+                    outcome = "carrier-refused"
+                finally:
+                    reset_pickle_bindings()
+                    if closer is not None:
+                        closer.close()
+                if outcome == "returned" and rank > 0:
+                    return Failure(case, f"{face} through a {label} returned although the pickle it points at ({first!r}) is "
+                                         f"flagged; the bytes in front of it are {other!r}")
+                if outcome == "returned" and rank == 0 and not values.deep_equal(value, _pk.loads(first)):
+                    return Failure(case, f"{face} through a {label} returned {value!r}; the harmless pickle it points at "
+                                         f"is {_pk.loads(first)!r} (the bytes in front of it are {other!r})")
+                if outcome == "refused" and rank == 0:
+                    return Failure(case, f"{face} through a {label} refused the harmless pickle {first!r} it points at; the "
+                                         f"bytes in front of it are {other!r}")
+    finally:
+        carriers.cleanup(scratch.path)
     return None
 
 
@@ -303,6 +354,10 @@ def replay(case):
     if case.get("order_table"):
         n, bad = severity_order_table()
         return Failure(case, "severity ordering: " + "; ".join(bad[:5])) if bad else None
+    if "loader_carriers" in case:
+        with Scratch("c10") as scratch:
+            a, b = case["loader_carriers"]
+            return check_loader_carriers(bytes.fromhex(a), bytes.fromhex(b), scratch)
     if "long" in case:
         with Scratch("c10") as scratch:
             return check_long_stack(case["long"][0], case["long"][1], scratch)
@@ -318,7 +373,7 @@ def shards(tier):
     if tier != "quick":
         longs += [(768, 3), (1024, 0), (65536, 0)]
     return ([{"kind": "order"}] + [{"kind": "stacks", "n": per, "idx": i} for i in range(15)]
-            + [{"kind": "long", "n_flagged": a, "tail": b} for a, b in longs])
+            + [{"kind": "long", "n_flagged": a, "tail": b} for a, b in longs] + [{"kind": "loader_carriers"}])
 
 
 def run_shard(spec, seed):
@@ -334,6 +389,20 @@ def run_shard(spec, seed):
         res.samples.append({"order": "LIKELY_SAFE < POSSIBLY_UNSAFE", "expected": True})
         if bad:
             res.failures.append(Failure({"order_table": True}, "severity ordering: " + "; ".join(bad[:5])))
+        return res
+    if spec["kind"] == "loader_carriers":
+        benign_ = [pickle.dumps([1, 2, 3], 2), b"N.", pickle.dumps({"k": "\r\n"}, 4)]
+        flagged_ = [b"cos\ngetpid\n)R.", b"cbuiltins\neval\n(S'1+1'\ntR.", b"ccollections\nOrderedDict\n)R0N."]
+        with Scratch("c10") as scratch:
+            for a in benign_:
+                for b in flagged_:
+                    for first, other in ((a, b), (b, a)):
+                        f = check_loader_carriers(first, other, scratch)
+                        res.note((first.hex(), other.hex()), True, klass="loader-carriers",
+                                 sample={"loader_carriers": [first.hex(), other.hex()]})
+                        if f is not None:
+                            res.failures.append(f)
+                            return res
         return res
     if spec["kind"] == "long":
         with Scratch("c10") as scratch:
